@@ -214,7 +214,7 @@ def gen_case(rng, scale=1, exotic=True, max_records=14):
             records.append({"fixed": fixed, "format": fmt, "calls": calls})
     x = rng.random()                       # (one draw, as before: C12 reuses this generator)
     phasing, second = x < 0.3, x < 0.15
-    if phasing and second and os.environ.get("VERIF_C13_F61"):
+    if phasing and second:      # F61 (fixed in /repo 3f23520): several ##phasing lines
         # F61 (fixes/F61.patch): only the first of two `##phasing` lines is removed, so a second application removes the
         # other one; generated only on request so that the check stays silent on the unpatched tree
         phasing = 2
